@@ -115,8 +115,9 @@ func Harness_csv_database() {
 	ta, va := hNumTok("num")
 	tb, vb := hNumTok("num")
 	tc, vc := hNumTok("num")
-	// rA: { y: va, x: vb }   rB: { rA: vc }   (rB is declared first)
-	src := rB + ":\n  " + rA + ": " + tc + "\n" + rA + ":\n  y: " + ta + "\n  x: " + tb + "\n"
+	td, vd := hNumTok("num")
+	// rA: { y: va, x: vb }   rB: { rA: vc, x: vd }   (rB is declared first; x reaches rB twice)
+	src := rB + ":\n  " + rA + ": " + tc + "\n  x: " + td + "\n" + rA + ":\n  y: " + ta + "\n  x: " + tb + "\n"
 	sink := newVerifSink(-1)
 	cfg := reporter.NewDefaultConfig()
 	cfg.Output = sink
@@ -124,11 +125,11 @@ func Harness_csv_database() {
 	var want []hRowT
 	if !resolved {
 		err = CSVDatabase(strings.NewReader(src), CSVDatabaseConfig{ParserConfig: parser.NewDefaultConfig(), ReporterConfig: cfg})
-		want = []hRowT{{rB, rA, vc}, {rA, "y", va}, {rA, "x", vb}}
+		want = []hRowT{{rB, rA, vc}, {rB, "x", vd}, {rA, "y", va}, {rA, "x", vb}}
 	} else {
 		err = CSVDatabaseResolved(strings.NewReader(src), CSVDatabaseResolvedConfig{ParserConfig: parser.NewDefaultConfig(), ReporterConfig: cfg, ResolverConfig: hResolverCfg()})
 		rowsA := []hRowT{{rA, "x", vb}, {rA, "y", va}}
-		rowsB := []hRowT{{rB, "x", vb * vc}, {rB, "y", va * vc}}
+		rowsB := []hRowT{{rB, "x", vb*vc + vd}, {rB, "y", va * vc}}
 		if rA < rB {
 			want = append(rowsA, rowsB...)
 		} else {
